@@ -38,4 +38,16 @@ PROPS = {
         'harnesses': ['c15::h_all_kinds', 'c15::h_files'],
         'covers': {'c15::h_files': ['some-file', 'ignored-file']},
     },
+    'C07': {
+        'harnesses': ['c07::h_roundtrip'],
+        'covers': {'c07::h_roundtrip': ['parsed-back']},
+    },
+    'C08': {
+        'harnesses': ['c08::h_edits', 'c08::h_completed'],
+        'covers': {'c08::h_edits': ['accepted', 'rejected'], 'c08::h_completed': ['complete']},
+    },
+    'C09': {
+        'harnesses': ['c09::h_cuts', 'c09::h_chunks', 'c09::h_malformed'],
+        'covers': {'c09::h_cuts': ['cut-inside-char'], 'c09::h_chunks': ['chunked'], 'c09::h_malformed': ['failed']},
+    },
 }
